@@ -323,6 +323,15 @@ def directed():
             for op_ in ("sum0", "np.sum0", "mean0", "col_counts", "getcol"):
                 for recv_ in ("fresh", "lazyrows"):
                     yield dict(mk_case(lens_, "bool", vals_, op_, 0, recv_, "small"), boolbytes=True)
+    # rectangular contents built from a matrix, copied, written, asked again (bool / integer cells)
+    for lens_ in ([3, 3, 3, 3], [2, 2], [4, 4, 4]):
+        tot_ = sum(lens_)
+        for dtype_ in ("int64", "bool", "uint8"):
+            vals_ = [(i * 3) % 5 for i in range(tot_)] if dtype_ != "bool" else [i % 3 == 0 for i in range(tot_)]
+            for op_ in ("sum0", "np.sum0", "mean0", "col_counts", "getcol"):
+                for how_ in ("ravel", "row", "cell"):
+                    for recv_ in ("fromnumpy-copied", "fromnumpy", "pickle"):
+                        yield dict(mk_case(lens_, dtype_, vals_, op_, 1, recv_, "small"), rewrite={"how": how_, "pos": 7 + len(lens_), "val": 1 if dtype_ == "bool" else 9})
     # extended precision: every cell is an exact double, the column totals are not (2**60 next to 1, 2**63 next to 3)
     for lens_ in ([2, 1, 2], [1, 1, 1, 1], [3, 0, 3]):
         tot_ = sum(lens_)
